@@ -203,7 +203,7 @@ def diff_cases(clsname, ctx):
     for depth in (0, 1, 2):
         for grp, key in pool:
             special = key in klass._PROTECTED_KEYS or key.startswith("__") or key in class_attrs
-            for verb in ("get", "set", "del", "get-missing", "del-missing"):
+            for verb in ("get", "get-none", "set", "set-none", "del", "get-missing", "del-missing"):
                 res["evaluations"] += 1
                 k2 = key
                 if verb.endswith("missing"):
@@ -225,12 +225,19 @@ def diff_cases(clsname, ctx):
                         if verb in ("get", "del") and "." not in k2:
                             ta[k2] = 7
                             ti[k2] = 7
-                        if verb in ("get", "get-missing"):
+                        if verb == "get-none" and "." not in k2:
+                            ta[k2] = None
+                            ti[k2] = None
+                        if verb in ("get", "get-missing", "get-none"):
                             a = outcome(lambda: getattr(ta, k2))
                             i = outcome(lambda: ti[k2])
-                        elif verb == "set":
-                            a = outcome(lambda: setattr(ta, k2, {"v": [1]}))
-                            i = outcome(lambda: ti.__setitem__(k2, {"v": [1]}))
+                        elif verb in ("set", "set-none"):
+                            val = {"v": [1]} if verb == "set" else None
+                            a = outcome(lambda: setattr(ta, k2, val))
+                            i = outcome(lambda: ti.__setitem__(k2, val))
+                            if a == i and a[0] == "ok":
+                                a = ("after-set", a, outcome(lambda: getattr(ta, k2)))
+                                i = ("after-set", i, outcome(lambda: ti[k2]))
                         else:
                             a = outcome(lambda: delattr(ta, k2))
                             i = outcome(lambda: ti.__delitem__(k2))
@@ -243,6 +250,8 @@ def diff_cases(clsname, ctx):
                             res["violations"].append(_v(clsname, "%s:%s@d%d" % (verb, grp, depth), "attr-item-differ",
                                                         "key %r depth %d %s: attribute syntax gave %r content %s, item syntax gave %r content %s"
                                                         % (k2, depth, verb, a, va, i, vi)))
+                    elif verb in ("get-none", "set-none"):
+                        pass
                     elif key in klass._PROTECTED_KEYS and verb in ("get", "set"):
                         before = {n: _ident(v) for n, v in vars(ti).items()}
                         if verb == "get":
